@@ -415,45 +415,306 @@ Proof.
     destruct (round_bin 53 (-1074) mant (10 ^ N.of_nat p)) as [m e]. reflexivity.
 Qed.
 
-(* Float, partial: the text of a finite double b = (-1)^s mx 2^ex written with a plain %.pf is read
-   back by %lf, consuming exactly that text, into the double encode_double s m e where
-   |m 2^e - mx 2^ex| <= 10^-p (stated after multiplication by 10^p 2^1074).
-   Not covered here: that decode_double inverts encode_double on (m, e) (bit-level packing), which
-   the correspondence checks on every Float case. *)
-Theorem float_roundtrip_partial : forall cf sp ssp b s mx ex rest,
+(* the text of a finite double b = (-1)^s mx 2^ex written with a plain %.pf is read back by %lf,
+   consuming exactly that text, into the double packed from the nearest-even (m, e) *)
+Lemma float_scan_encode : forall cf sp ssp b s mx ex rest,
   conv_is_float (n_conv sp) = true -> plain_fspec sp ->
   conv_is_float (n_conv ssp) = true -> conv_is_int (n_conv ssp) = false -> n_long ssp = true ->
   decode_double b = Some (s, mx, ex) -> stops_float rest ->
-  exists m e,
-    scan_num cf ssp (print_num sp (VFloat b) ++ rest)
-    = Some (VFloat (encode_double 1024 s m e), length (print_num sp (VFloat b)))
-    /\ (-1074 <= e)%Z
-    /\ (Z.abs (sval (-1074) (pow10 (float_prec sp)) m e - sval (-1074) (pow10 (float_prec sp)) mx ex) <= 2 ^ 1074)%Z.
+  let r := round_bin 53 (-1074) (scaled_round (float_prec sp) mx ex) (pow10 (float_prec sp)) in
+  scan_num cf ssp (print_num sp (VFloat b) ++ rest)
+  = Some (VFloat (encode_double 1024 s (fst r) (snd r)), length (print_num sp (VFloat b))).
 Proof.
-  intros cf sp ssp b s mx ex rest Hc Hplain Hsc Hsi Hl Hdec Hr.
-  destruct (decode_double_range _ _ _ _ Hdec) as [Hmx [Hex _]].
-  set (p := float_prec sp).
-  set (r := round_bin 53 (-1074) (scaled_round p mx ex) (pow10 p)).
-  exists (fst r), (snd r).
-  destruct (float_value_roundtrip p mx ex Hmx Hex) as [He Hv]. fold r in He, Hv.
-  split; [|split; assumption].
+  intros cf sp ssp b s mx ex rest Hc Hplain Hsc Hsi Hl Hdec Hr r.
   unfold print_num, scan_num. rewrite Hc, Hdec, Hsi, Hsc.
-  rewrite float_text_roundtrip by assumption. fold p.
+  rewrite float_text_roundtrip by assumption.
   rewrite Hl, read_float_long. reflexivity.
 Qed.
 
+(* ================================================================== shape of round_bin's result *)
+Local Open Scope Z_scope.
+
+Lemma floor_log2_ratio_ub : forall p q : N, (0 < p)%N -> (0 < q)%N ->
+  ratio_ge_pow2 p q (floor_log2_ratio p q + 1) = false.
+Proof.
+  intros p q Hp Hq. unfold floor_log2_ratio.
+  set (lp := Z.of_N (N.log2 p)). set (lq := Z.of_N (N.log2 q)).
+  destruct (ratio_ge_pow2 p q (lp - lq)) eqn:E.
+  - apply Bool.not_true_is_false. intros Hc. apply ratio_ge_pow2_spec in Hc.
+    pose proof (log2_bounds p Hp) as [_ Hp2]. pose proof (log2_bounds q Hq) as [Hq1 _].
+    fold lp in Hp2. fold lq in Hq1.
+    assert (0 <= lp) by (unfold lp; lia). assert (0 <= lq) by (unfold lq; lia).
+    destruct (Z.leb_spec 0 (lp - lq + 1)).
+    + assert (2 ^ lq * 2 ^ (lp - lq + 1) = 2 ^ (lp + 1)) by (rewrite <- Zpow2_split by lia; f_equal; lia).
+      pose proof (Zpow2_pos (lp - lq + 1) ltac:(lia)). nia.
+    + replace (- (lp - lq + 1)) with (lq - lp - 1) in Hc by lia.
+      assert (2 ^ (lp + 1) * 2 ^ (lq - lp - 1) = 2 ^ lq) by (rewrite <- Zpow2_split by lia; f_equal; lia).
+      pose proof (Zpow2_pos (lq - lp - 1) ltac:(lia)). nia.
+  - replace (lp - lq - 1 + 1) with (lp - lq) by lia. exact E.
+Qed.
+
+Section RoundBinShape.
+  Variables (prec emin : Z) (p q : N).
+  Hypothesis Hprec : 0 < prec.
+  Hypothesis Hemin : emin <= 0.
+  Hypothesis Hq : (0 < q)%N.
+  Hypothesis Hp : (0 < p)%N.
+
+  Let l := floor_log2_ratio p q.
+  Let e := Z.max emin (l - (prec - 1)).
+  Let m := if 0 <=? e then rne_div p (q * pow2 e) else rne_div (p * pow2 (- e)) q.
+  Let U := Z.of_N q * 2 ^ (e - emin).
+  Let T := starget emin p.
+
+  Lemma rb_eq : round_bin prec emin p q = (m, e).
+  Proof. unfold round_bin. destruct (N.eqb_spec p 0); [lia|]. reflexivity. Qed.
+
+  Lemma rb_grid : forall k, Z.abs (Z.of_N m * U - T) <= Z.abs (k * U - T).
+  Proof. intros k. apply (round_bin_grid emin e p q k Hemin); [unfold e; lia | exact Hq]. Qed.
+
+  Lemma rb_U_pos : 0 < U.
+  Proof. unfold U. pose proof (Zpow2_pos (e - emin) ltac:(unfold e; lia)). nia. Qed.
+
+  (* T <= 2^prec * U : the quotient is below 2^prec *)
+  Lemma rb_upper : T <= 2 ^ prec * U.
+  Proof.
+    pose proof (floor_log2_ratio_ub p q Hp Hq) as Hr. fold l in Hr.
+    assert (Hn : ~ (if 0 <=? l + 1 then Z.of_N q * 2 ^ (l + 1) <= Z.of_N p else Z.of_N q <= Z.of_N p * 2 ^ (- (l + 1)))).
+    { intros Hc. apply ratio_ge_pow2_spec in Hc. congruence. }
+    unfold T, starget, U.
+    assert (He : l - (prec - 1) <= e) by (unfold e; lia).
+    assert (Hx : 2 ^ (l + 1 - emin) <= 2 ^ prec * 2 ^ (e - emin)).
+    { rewrite <- Zpow2_split by (unfold e; lia). apply Z.pow_le_mono_r; lia. }
+    destruct (Z.leb_spec 0 (l + 1)).
+    - assert (2 ^ (l + 1 - emin) = 2 ^ (l + 1) * 2 ^ (- emin)).
+      { replace (l + 1 - emin) with ((l + 1) + - emin) by lia. apply Zpow2_split; lia. }
+      pose proof (Zpow2_pos (- emin) ltac:(lia)). assert (0 < Z.of_N q) by lia. nia.
+    - destruct (Z_le_gt_dec 0 (l + 1 - emin)).
+      + assert (2 ^ (- emin) = 2 ^ (- (l + 1)) * 2 ^ (l + 1 - emin)).
+        { rewrite <- Zpow2_split by lia. f_equal. lia. }
+        pose proof (Zpow2_pos (l + 1 - emin) ltac:(lia)). assert (0 < Z.of_N q) by lia. nia.
+      + (* l + 1 < emin : p / q < 2^emin; then e = emin *)
+        assert (e = emin) by (unfold e; lia).
+        assert (2 ^ (- (l + 1)) = 2 ^ (- emin) * 2 ^ (emin - (l + 1))).
+        { rewrite <- Zpow2_split by lia. f_equal. lia. }
+        replace (e - emin) with 0 by lia. rewrite Z.pow_0_r.
+        assert (1 <= 2 ^ (emin - (l + 1))) by (pose proof (Zpow2_pos (emin - (l + 1)) ltac:(lia)); lia).
+        pose proof (Zpow2_pos prec ltac:(lia)). pose proof (Zpow2_pos (- emin) ltac:(lia)).
+        assert (0 < Z.of_N q) by lia. nia.
+  Qed.
+
+  Lemma rb_m_le : Z.of_N m <= 2 ^ prec.
+  Proof.
+    destruct (Z_le_gt_dec (Z.of_N m) (2 ^ prec)) as [|Hgt]; [assumption|exfalso].
+    pose proof (rb_grid (2 ^ prec)) as Hg. pose proof rb_upper. pose proof rb_U_pos.
+    assert (T < Z.of_N m * U) by nia.
+    rewrite (Z.abs_eq (Z.of_N m * U - T)) in Hg by lia.
+    rewrite (Z.abs_eq (2 ^ prec * U - T)) in Hg by lia. nia.
+  Qed.
+
+  (* 2^(prec-1) * U <= T when the exponent is not the least one *)
+  Lemma rb_lower : emin < e -> 2 ^ (prec - 1) * U <= T.
+  Proof.
+    intros Hlt. assert (Hel : e = l - (prec - 1)) by (unfold e in *; lia).
+    pose proof (floor_log2_ratio_lb p q Hp Hq) as Hr. fold l in Hr.
+    apply ratio_ge_pow2_spec in Hr. unfold T, starget, U.
+    assert (Hx : 2 ^ (prec - 1) * 2 ^ (e - emin) = 2 ^ (l - emin)).
+    { rewrite <- Zpow2_split by lia. f_equal. lia. }
+    destruct (Z.leb_spec 0 l).
+    - assert (2 ^ (l - emin) = 2 ^ l * 2 ^ (- emin)).
+      { replace (l - emin) with (l + - emin) by lia. apply Zpow2_split; lia. }
+      pose proof (Zpow2_pos (- emin) ltac:(lia)). nia.
+    - assert (2 ^ (- emin) = 2 ^ (- l) * 2 ^ (l - emin)).
+      { rewrite <- Zpow2_split by lia. f_equal. lia. }
+      pose proof (Zpow2_pos (l - emin) ltac:(lia)). nia.
+  Qed.
+
+  Lemma rb_m_ge : emin < e -> 2 ^ (prec - 1) <= Z.of_N m.
+  Proof.
+    intros Hlt. destruct (Z_le_gt_dec (2 ^ (prec - 1)) (Z.of_N m)) as [|Hgt]; [assumption|exfalso].
+    pose proof (rb_grid (2 ^ (prec - 1))) as Hg. pose proof (rb_lower Hlt). pose proof rb_U_pos.
+    assert (Z.of_N m * U < T) by nia.
+    rewrite (Z.abs_neq (Z.of_N m * U - T)) in Hg by lia.
+    rewrite (Z.abs_neq (2 ^ (prec - 1) * U - T)) in Hg by lia. nia.
+  Qed.
+End RoundBinShape.
+
+(* ================================================================== packing into 64 bits *)
+Local Open Scope N_scope.
+
+Lemma fields_of_bits : forall (sg : bool) (E F : N), E < 2047 -> F < p52 ->
+  let bits := (if sg then p63 else 0) + E * p52 + F in
+  N.testbit bits 63 = sg /\ (bits / p52) mod 2048 = E /\ bits mod p52 = F.
+Proof.
+  intros sg E F HE HF bits. subst bits. rewrite N.testbit_eqb.
+  unfold p52, p63 in *. change (2 ^ 63) with 9223372036854775808.
+  set (S := if sg then 9223372036854775808 else 0).
+  assert (HS : S = (if sg then 2048 else 0) * 4503599627370496) by (destruct sg; reflexivity).
+  assert (Hd52 : (S + E * 4503599627370496 + F) / 4503599627370496 = (if sg then 2048 else 0) + E).
+  { symmetry. apply N.div_unique with (r := F); [assumption|]. rewrite HS. lia. }
+  assert (Hd63 : (S + E * 4503599627370496 + F) / 9223372036854775808 = if sg then 1 else 0).
+  { symmetry. apply N.div_unique with (r := E * 4503599627370496 + F); [lia|]. destruct sg; subst S; lia. }
+  split; [|split].
+  - rewrite Hd63. destruct sg; reflexivity.
+  - rewrite Hd52. symmetry. apply N.mod_unique with (q := if sg then 1 else 0); [lia|]. destruct sg; lia.
+  - symmetry. apply N.mod_unique with (q := (if sg then 2048 else 0) + E); [assumption|]. rewrite HS. lia.
+Qed.
+
+Lemma decode_fields : forall (sg : bool) (E F : N), E < 2047 -> F < p52 ->
+  decode_double ((if sg then p63 else 0) + E * p52 + F)
+  = Some (sg, if E =? 0 then F else p52 + F, if E =? 0 then (-1074)%Z else (Z.of_N E - 1075)%Z).
+Proof.
+  intros sg E F HE HF. destruct (fields_of_bits sg E F HE HF) as (H1 & H2 & H3).
+  unfold decode_double. rewrite H1, H2, H3.
+  destruct (N.eqb_spec E 2047); [lia|]. destruct (E =? 0); reflexivity.
+Qed.
+
+Lemma pow2_0 : pow2 0 = 1.
+Proof. reflexivity. Qed.
+
+(* decode_double inverts encode_double on normalised, in-range (m, e) *)
+Lemma decode_encode : forall s m e,
+  m <= p53 -> (-1074 <= e)%Z ->
+  (m <> 0 -> (Z.of_N (N.log2 m) + e < 1024)%Z) ->
+  ((-1074 < e)%Z -> p52 <= m) ->
+  exists m' e', decode_double (encode_double 1024 s m e) = Some (s, m', e')
+    /\ (Z.of_N m' * 2 ^ (e' + 1074) = Z.of_N m * 2 ^ (e + 1074))%Z
+    /\ m' < p53 /\ (-1074 <= e' <= 971)%Z.
+Proof.
+  intros s m e Hm He Hov Hnorm. unfold encode_double.
+  destruct (N.eqb_spec m 0) as [->|Hm0].
+  - exists 0, (-1074)%Z.
+    pose proof (decode_fields s 0 0 ltac:(reflexivity) ltac:(reflexivity)) as Hd.
+    rewrite N.mul_0_l, !N.add_0_r in Hd. rewrite Hd. cbn. repeat split; try reflexivity; lia.
+  - specialize (Hov Hm0).
+    destruct (Z.leb_spec 1024 (Z.of_N (N.log2 m) + e)); [lia|].
+    destruct (N.eq_dec m p53) as [->|Hne].
+    + (* m = 2^53 : renormalised to 2^52 * 2^(e+1) *)
+      change (N.log2 p53) with 53 in *. 
+      replace (Z.min (52 - Z.of_N 53) (e + 1074)) with (-1)%Z by lia.
+      cbn [Z.leb Z.compare Z.opp]. change (pow2 1) with 2. change (p53 / 2) with p52.
+      replace (p52 <? p52) with false by reflexivity.
+      replace (p52 - p52) with 0 by reflexivity.
+      exists p52, (e + 1)%Z.
+      pose proof (decode_fields s (Z.to_N (e - -1 + 1075)) 0 ltac:(lia) ltac:(reflexivity)) as Hd.
+      rewrite Hd. destruct (N.eqb_spec (Z.to_N (e - -1 + 1075)) 0); [lia|].
+      rewrite N.add_0_r. split; [f_equal; f_equal; lia|].
+      split; [|split; [reflexivity|lia]].
+      replace (e + 1 + 1074)%Z with (1 + (e + 1074))%Z by lia.
+      rewrite Z.pow_add_r by lia. change (Z.of_N p53) with (2 * Z.of_N p52)%Z. change (2 ^ 1)%Z with 2%Z. ring.
+    + destruct (N.le_gt_cases p52 m) as [Hge|Hlt].
+      * (* normal *)
+        assert (Hl : N.log2 m = 52).
+        { apply (N.log2_unique' m 52 (m - p52)); change (2 ^ 52) with 4503599627370496; unfold p52, p53 in *; lia. }
+        rewrite Hl in *. change (Z.of_N 52) with 52%Z in *.
+        replace (Z.min (52 - 52) (e + 1074)) with 0%Z by lia.
+        cbn [Z.leb Z.compare]. rewrite pow2_0, N.mul_1_r, Z.sub_0_r.
+        destruct (N.ltb_spec m p52); [lia|].
+        exists m, e.
+        pose proof (decode_fields s (Z.to_N (e + 1075)) (m - p52) ltac:(lia) ltac:(unfold p52, p53 in *; lia)) as Hd.
+        rewrite Hd. destruct (N.eqb_spec (Z.to_N (e + 1075)) 0); [lia|].
+        split; [f_equal; f_equal; [f_equal; unfold p52 in *; lia | lia]|].
+        split; [reflexivity|]. split; [unfold p52, p53 in *; lia | lia].
+      * (* subnormal: e = -1074 *)
+        assert (e = (-1074)%Z) by (destruct (Z.eq_dec e (-1074)); [assumption|]; specialize (Hnorm ltac:(lia)); lia).
+        subst e.
+        assert (Hl : (Z.of_N (N.log2 m) < 52)%Z).
+        { assert (N.log2 m < 52); [|lia]. apply N.log2_lt_pow2; [lia|]. exact Hlt. }
+        replace (Z.min (52 - Z.of_N (N.log2 m)) (-1074 + 1074)) with 0%Z by lia.
+        cbn [Z.leb Z.compare]. rewrite pow2_0, N.mul_1_r.
+        destruct (N.ltb_spec m p52); [|lia].
+        exists m, (-1074)%Z.
+        pose proof (decode_fields s 0 m ltac:(reflexivity) Hlt) as Hd.
+        rewrite N.mul_0_l, N.add_0_r in Hd. rewrite Hd. cbn [N.eqb].
+        split; [reflexivity|]. split; [reflexivity|]. split; [unfold p52, p53 in *; lia | lia].
+Qed.
+
+Local Open Scope Z_scope.
+
+(* a result within 10^-p of a finite double does not overflow *)
+Lemma no_overflow : forall pd (m mx : N) e ex, m <> 0%N -> -1074 <= e ->
+  Z.of_N mx < 2 ^ 53 -> -1074 <= ex <= 971 ->
+  Z.abs (sval (-1074) (pow10 pd) m e - sval (-1074) (pow10 pd) mx ex) <= 2 ^ 1074 ->
+  Z.of_N (N.log2 m) + e < 1024.
+Proof.
+  intros pd m mx e ex Hm He Hmx Hex Hc. unfold sval in Hc.
+  replace (e - -1074) with (e + 1074) in Hc by lia. replace (ex - -1074) with (ex + 1074) in Hc by lia.
+  pose proof (pow10_pos pd) as HP. set (P := Z.of_N (pow10 pd)) in *. assert (1 <= P) by lia.
+  assert (Hle : 2 ^ (ex + 1074) <= 2 ^ 2045) by (apply Z.pow_le_mono_r; lia).
+  assert (Hs : 2 ^ 1074 < 2 ^ 2045) by (apply Z.pow_lt_mono_r; lia).
+  assert (H98 : 2 ^ 2098 = 2 ^ 53 * 2 ^ 2045) by (rewrite <- Zpow2_split by lia; reflexivity).
+  pose proof (Zpow2_pos (ex + 1074) ltac:(lia)) as Hpx. pose proof (Zpow2_pos (e + 1074) ltac:(lia)) as Hpe.
+  set (A := 2 ^ 2045) in *. set (B := 2 ^ (ex + 1074)) in *. set (C := 2 ^ (e + 1074)) in *.
+  set (D := 2 ^ 1074) in *. set (K := 2 ^ 53) in *.
+  assert (HmC : Z.of_N m * C < K * A).
+  { assert (Z.of_N mx * B <= (K - 1) * A) by nia.
+    assert (Z.of_N mx * B * P <= (K - 1) * A * P) by nia.
+    assert (Z.of_N m * C * P <= (K - 1) * A * P + D) by lia.
+    assert (D < A * P) by nia.
+    assert (Z.of_N m * C * P < K * A * P) by lia.
+    nia. }
+  destruct (log2_bounds m ltac:(lia)) as [Hl _].
+  assert (2 ^ (Z.of_N (N.log2 m) + (e + 1074)) < 2 ^ 2098).
+  { rewrite Zpow2_split by lia. fold C. rewrite H98. fold A K. nia. }
+  apply Z.pow_lt_mono_r_iff in H0; lia.
+Qed.
+
+Ltac feed H := repeat match type of H with
+  | ?A -> _ => let Hf := fresh in assert (Hf : A) by (assumption || lia); specialize (H Hf); clear Hf
+  end.
+
+(* Float, full statement at the level of bit patterns: the text of a finite double b (sign s,
+   value mx 2^ex) written with a plain %.pf and read back by %lf gives, consuming exactly that text,
+   a bit pattern b' that decodes to a finite double of the same sign with
+   |m' 2^e' - mx 2^ex| <= 10^-p  (multiplied by 10^p 2^1074) *)
+Theorem float_roundtrip : forall cf sp ssp b s mx ex rest,
+  conv_is_float (n_conv sp) = true -> plain_fspec sp ->
+  conv_is_float (n_conv ssp) = true -> conv_is_int (n_conv ssp) = false -> n_long ssp = true ->
+  decode_double b = Some (s, mx, ex) -> stops_float rest ->
+  exists b' m' e',
+    scan_num cf ssp (print_num sp (VFloat b) ++ rest) = Some (VFloat b', length (print_num sp (VFloat b)))
+    /\ decode_double b' = Some (s, m', e')
+    /\ Z.abs (sval (-1074) (pow10 (float_prec sp)) m' e' - sval (-1074) (pow10 (float_prec sp)) mx ex) <= 2 ^ 1074.
+Proof.
+  intros cf sp ssp b s mx ex rest Hc Hplain Hsc Hsi Hl Hdec Hr.
+  destruct (decode_double_range _ _ _ _ Hdec) as [Hmx Hex].
+  pose proof (float_scan_encode cf sp ssp b s mx ex rest Hc Hplain Hsc Hsi Hl Hdec Hr) as Hs. cbv zeta in Hs.
+  set (pd := float_prec sp) in *. set (n := scaled_round pd mx ex) in *.
+  destruct (float_value_roundtrip pd mx ex Hmx ltac:(lia)) as [He Hv]. fold n in He, Hv.
+  set (r := round_bin 53 (-1074) n (pow10 pd)) in *.
+  assert (Hshape : (fst r <= p53)%N /\ (-1074 < snd r -> (p52 <= fst r)%N)).
+  { destruct (N.eq_dec n 0) as [Hn0|Hn0].
+    - subst r. rewrite Hn0. unfold round_bin. cbn. split; [discriminate|lia].
+    - assert (Hn1 : (0 < n)%N) by lia. pose proof (pow10_pos pd) as HP.
+      pose proof (rb_eq 53 (-1074) n (pow10 pd)) as Hr'. feed Hr'. fold r in Hr'.
+      pose proof (rb_m_le 53 (-1074) n (pow10 pd)) as H1. feed H1.
+      pose proof (rb_m_ge 53 (-1074) n (pow10 pd)) as H2. feed H2.
+      rewrite Hr'. cbn [fst snd]. change (2 ^ 53) with (Z.of_N p53) in H1. change (2 ^ (53 - 1)) with (Z.of_N p52) in H2.
+      split; [lia|]. intros Hlt. specialize (H2 Hlt). lia. }
+  destruct Hshape as [Hle Hnorm].
+  destruct (decode_encode s (fst r) (snd r) Hle He) as (m' & e' & Hd & Hval & Hm' & He').
+  { intros Hne. apply (no_overflow pd (fst r) mx (snd r) ex Hne He Hmx ltac:(lia) Hv). }
+  { exact Hnorm. }
+  exists (encode_double 1024 s (fst r) (snd r)), m', e'. split; [exact Hs|]. split; [exact Hd|].
+  replace (sval (-1074) (pow10 pd) m' e') with (sval (-1074) (pow10 pd) (fst r) (snd r)); [exact Hv|].
+  unfold sval. replace (snd r - -1074) with (snd r + 1074) by lia. replace (e' - -1074) with (e' + 1074) by lia.
+  rewrite Hval. reflexivity.
+Qed.
+
 (* ================================================================== sequences with Floats *)
+Local Open Scope N_scope.
 
 Record config_ok_float (cf : config) : Prop := {
   okf_base : config_ok cf;
   okf_long : cf_float_look_long cf = true }.
 
 (* what reading back must give: Ints and Strings equal; a finite Float b = (-1)^s mx 2^ex comes back
-   as the double encode_double s m e with |m 2^e - mx 2^ex| <= 10^-p (p = printed precision) *)
+   as a bit pattern b' that decodes to a finite double (-1)^s m' 2^e' with |m' 2^e' - mx 2^ex| <= 10^-p
+   (p = printed precision) *)
 Definition float_close (p : nat) (b b' : N) : Prop :=
-  exists s mx ex m e,
-    decode_double b = Some (s, mx, ex) /\ b' = encode_double 1024 s m e /\ (-1074 <= e)%Z /\
-    (Z.abs (sval (-1074) (pow10 p) m e - sval (-1074) (pow10 p) mx ex) <= 2 ^ 1074)%Z.
+  exists s mx ex m' e',
+    decode_double b = Some (s, mx, ex) /\ decode_double b' = Some (s, m', e') /\
+    (Z.abs (sval (-1074) (pow10 p) m' e' - sval (-1074) (pow10 p) mx ex) <= 2 ^ 1074)%Z.
 
 Definition finite (b : N) : Prop := decode_double b <> None.
 
@@ -488,12 +749,12 @@ Lemma show_float_item : forall cf b after, config_ok_float cf -> finite b -> sto
 Proof.
   intros cf b after [Hb Hl] Hf Hr. unfold finite in Hf.
   destruct (decode_double b) as [[[s mx] ex]|] eqn:Hd; [|congruence].
-  destruct (float_roundtrip_partial cf (spec_f false) (spec_f true) b s mx ex after) as (m & e & Hs & He & Hv);
+  destruct (float_roundtrip cf (spec_f false) (spec_f true) b s mx ex after) as (b' & m' & e' & Hs & Hd' & Hv);
     try reflexivity; try assumption.
   { repeat split. }
-  exists (encode_double 1024 s m e). constructor; try assumption.
+  exists b'. constructor; try assumption.
   - unfold finite. congruence.
-  - exists s, mx, ex, m, e. repeat split; assumption.
+  - exists s, mx, ex, m', e'. repeat split; assumption.
   - cbn [look_value show_value]. rewrite Hl. exact Hs.
 Qed.
 
@@ -505,10 +766,10 @@ Lemma num_float_item : forall cf sp ssp b after,
 Proof.
   intros cf sp ssp b after H1 H2 H3 H4 H5 Hf Hr. unfold finite in Hf.
   destruct (decode_double b) as [[[s mx] ex]|] eqn:Hd; [|congruence].
-  destruct (float_roundtrip_partial cf sp ssp b s mx ex after H1 H2 H3 H4 H5 Hd Hr) as (m & e & Hs & He & Hv).
-  exists (encode_double 1024 s m e). constructor; try assumption.
+  destruct (float_roundtrip cf sp ssp b s mx ex after H1 H2 H3 H4 H5 Hd Hr) as (b' & m' & e' & Hs & Hd' & Hv).
+  exists b'. constructor; try assumption.
   - unfold finite. congruence.
-  - exists s, mx, ex, m, e. repeat split; assumption.
+  - exists s, mx, ex, m', e'. repeat split; assumption.
 Qed.
 
 (* a sequence: literals pair with themselves, values with a directive that reads them *)
